@@ -154,11 +154,15 @@ class Hazard:
                     return True
         return False
 
-    def function(self, f):
-        selfname = f.args.args[0].arg if f.args.args else "self"
-        env = {}
+    def function(self, f, selfname=None, env=None):
+        if selfname is None:
+            selfname = f.args.args[0].arg if f.args.args else "self"
+        env = dict(env or {})
         result = None
         for st in body_wo_doc(f):
+            if isinstance(st, ast.FunctionDef) and not st.decorator_list:
+                env[("def", st.name)] = st           # a local helper: evaluated where it is called (closure over the locals so far)
+                continue
             if isinstance(st, ast.Assign) and len(st.targets) == 1 and isinstance(st.targets[0], ast.Name):
                 env[st.targets[0].id] = self.expr(st.value, env, selfname)
             elif isinstance(st, ast.Return) and st.value is not None:
@@ -210,6 +214,15 @@ class Hazard:
             return r
         if isinstance(n, ast.Call):
             name = dotted_name(n.func) or ""
+            if isinstance(n.func, ast.Name) and ("def", n.func.id) in env:
+                fd = env[("def", n.func.id)]
+                params = [a.arg for a in fd.args.args]
+                if len(params) != len(n.args) or n.keywords or fd.args.vararg or fd.args.kwarg:
+                    raise AnalysisError(f"call of the local helper {n.func.id} with arguments the hazard analysis does not bind")
+                inner = dict(env)
+                for p_, a_ in zip(params, n.args):
+                    inner[p_] = self.expr(a_, env, selfname)
+                return self.function(fd, selfname, inner)
             if name in EXP_NAMES or name in EXPM1_NAMES:
                 a = plain(self.expr(n.args[0], env, selfname))
                 if a in ("U+", "U?", "OVF"):
